@@ -94,6 +94,10 @@ of_status_t	of_rs_2_m_set_fec_parameters   (of_rs_2_m_cb_t*		ofcb,
 	}
 	ofcb->field_size		= (1 << ofcb->m) - 1;
 	ofcb->max_nb_encoding_symbols	= ofcb->max_nb_source_symbols = ofcb->field_size;
+	if (params->nb_source_symbols < 1 || params->nb_repair_symbols < 1 || params->encoding_symbol_length < 1) {
+		OF_PRINT_ERROR(("ERROR: nb_source_symbols, nb_repair_symbols and encoding_symbol_length must be at least 1"))
+		goto error;
+	}
 	if ((ofcb->nb_source_symbols	= params->nb_source_symbols) > ofcb->max_nb_source_symbols) {
 		OF_PRINT_ERROR(("ERROR: invalid nb_source_symbols parameter (got %d, maximum is %d)",
 				ofcb->nb_source_symbols, ofcb->max_nb_source_symbols))
